@@ -11,6 +11,7 @@ R  the same spaces through the real euclidean/manhattan/great_circle_distance (r
 T  seeded random point tables (plane and sphere) and random strings.
 """
 import itertools
+import json
 import os
 import random
 import re
@@ -128,7 +129,8 @@ def red(n, d):
 
 def cellsize_jobs():
     jobs = []
-    units = ["", "m", "meter", "meters", "km", "kilometer", "kilometers", "ft", "foot", "feet", "miles", "mls", "ml"]
+    units = ["", "m", "meter", "meters", "km", "kilometer", "kilometers", "ft", "foot", "feet", "mile", "miles", "mls",
+             "ml"]
     for u in units:
         jobs.append({"kind": "cellsize", "mode": "attr2", "H": 3, "W": 4, "unit": u, "rx": [1, 2], "ry": [1, 2]})
         jobs.append({"kind": "cellsize", "mode": "attr2", "H": 3, "W": 4, "unit": u, "rx": [3, 1], "ry": [-5, 4]})
@@ -158,7 +160,11 @@ def nominal_cell(s):
 
 
 def case_variants(u):
-    return {u, u.upper(), u.capitalize(), u[:1] + u[1:].upper()}
+    out = []
+    for v in (u, u.capitalize(), u.upper(), u[:1] + u[1:].upper()):
+        if v not in out:
+            out.append(v)
+    return out
 
 
 def parse_jobs(rng, tier):
@@ -176,8 +182,8 @@ def parse_jobs(rng, tier):
     for num in good_nums + bad_nums:
         add(num, num, "")
         for u in UNIT_NAMES:
-            for cu in sorted(case_variants(u)):
-                for sp in ("", " ", "   "):
+            for cu in case_variants(u):
+                for sp in (" ", "", "   "):
                     add(num + sp + cu, num, u)
         for u in unknown:
             add(num + u, num, u)
@@ -270,7 +276,7 @@ def run(ctx):
     thorough = ctx.tier == "thorough"
     SEEN.clear()
     if os.environ.get("VERIF_C19_STAGE") == "R":       # development aid: replay only (mutation testing)
-        return replay(ctx, rng)
+        return replay_all(ctx, rng)
 
     # ---------------------------------------------------------------- M
     inv_m = ["ManSymmetric", "ManIdentity", "ManNonNeg", "ManTriangle", "EucSymmetric", "EucIdentity",
@@ -306,13 +312,16 @@ def run(ctx):
     ctx.exhaustive = True
 
     # ---------------------------------------------------------------- R / T : one fan-out over the real code
-    replay(ctx, rng)
+    replay_all(ctx, rng)
 
 
-def replay(ctx, rng):
+def replay_all(ctx, rng):
     jobs = (plane_jobs(rng, ctx.tier) + sphere_jobs(rng, ctx.tier) + range_jobs(rng) + kernel_jobs(rng, ctx.tier)
             + cellsize_jobs() + custom_jobs() + parse_jobs(rng, ctx.tier))
-    cases = core.run_jobs("c19_worker", jobs, nproc=16)
+    judge_cases(ctx, core.run_jobs("c19_worker", jobs, nproc=16))
+
+
+def judge_cases(ctx, cases):
     check_worker(cases)
     by = {}
     for c in cases:
@@ -343,8 +352,9 @@ def replay(ctx, rng):
         pts = sorted(set(zip(c["lon"], c["lat"])))
         for t in itertools.combinations(pts, 3):
             ctx.nontrivial(("sph",) + t)
-    ctx.sample({"kind": "sphere", "points": list(zip(by["sphere"][0]["lon"], by["sphere"][0]["lat"]))[:8],
-                "metres_row0": by["sphere"][0]["m"][0][:8]})
+    if by.get("sphere"):
+        ctx.sample({"kind": "sphere", "points": list(zip(by["sphere"][0]["lon"], by["sphere"][0]["lat"]))[:8],
+                    "metres_row0": by["sphere"][0]["m"][0][:8]})
 
     # kernels
     kc = by.get("circle", []) + by.get("annulus", [])
@@ -359,11 +369,13 @@ def replay(ctx, rng):
             if (c["r"][0] * c[ax][1]) % (c["r"][1] * c[ax][0]) != 0:
                 ctx.nontrivial(("kernel", c["kind"], tuple(c["cx"]), tuple(c["cy"]), tuple(c["r"]), tuple(c["ri"])))
                 break
-    ctx.sample({"kind": "circle", "cx": kc[5]["cx"], "cy": kc[5]["cy"], "r": kc[5]["r"], "kernel": kc[5]["kernel"]})
+    if len(kc) > 5:
+        ctx.sample({"kind": "circle", "cx": kc[5]["cx"], "cy": kc[5]["cy"], "r": kc[5]["r"],
+                    "kernel": kc[5]["kernel"]})
     judge_group(ctx, "Kernels_Judge", by.get("cellsize", []),
                 ["kind", "mode", "unit", "rx", "ry", "xs", "ys", "sc", "obs", "err"], "cellsize",
-                lambda c, cl, e: ("calc_cellsize:%s" % cl, "mode=%s unit=%r raw=%s %s" % (
-                    c["mode"], c["unit"], c.get("raw"), c.get("error", ""))))
+                lambda c, cl, e: ("calc_cellsize:%s%s" % (cl, ":unit=%s" % c["unit"] if cl == "valid_rejected" else ""),
+                                  "mode=%s unit=%r raw=%s %s" % (c["mode"], c["unit"], c.get("raw"), c.get("error", ""))))
     # custom_kernel validation is not part of the property text: a disagreement is DRIFT, not a violation
     judge_group(ctx, "Kernels_Judge", by.get("custom", []), ["kind", "rows", "cols", "isarray", "raised", "same"],
                 "custom_kernel", lambda c, cl, e: ("custom_kernel:%s" % cl, "%s %dx%d" % (
@@ -384,12 +396,20 @@ def replay(ctx, rng):
     for c in pc:
         if c["pub"] and any(ch.isalpha() or ch == "." for ch in c["s"]):
             ctx.nontrivial(("str", c["s"]))
-    ctx.sample({"kind": "parse", "cases": [(c["s"], c["pub"], c.get("raw")) for c in pc[:12]]})
+    if pc:
+        ctx.sample({"kind": "parse", "cases": [(c["s"], c["pub"], c.get("raw")) for c in pc[:12]]})
     ctx.extra["strings_replayed"] = len(pc)
     ctx.extra["kernels_replayed"] = len(kc)
     for key, n in sorted(SEEN.items()):
         if n > 3:
             ctx.note("%s: %d failing cases (3 replay files written)" % (key, n))
+
+
+def replay(ctx, rec):
+    """./check Cxx --replay file : exactly that case through the real code and the specification"""
+    saved = rec["case"]
+    SEEN.clear()
+    judge_cases(ctx, core.run_jobs("c19_worker", [saved.get("job", saved)], nproc=1))
 
 
 META = {
